@@ -72,7 +72,9 @@ JudgeNumberMulti(o) == IF o.k \in NumKinds THEN <<"V:C14.number_accepted_for_mul
 Verdict(c) ==
   [j \in 1..Len(c.pts) |->
       IF c.mode = "number" /\ Cardinality(HVars(c.h, Len(c.h))) >= 2 THEN JudgeNumberMulti(c.outs[j])
-      ELSE Judge(c, PointOf(c,j), c.outs[j], c.svs[j])]
+      ELSE Judge(c, PointOf(c,j), c.outs[j], c.svs[j])
+           \* C14: a bare number IS accepted for an expression with at most one variable
+           \o (IF c.mode = "number" /\ c.outs[j].k = "PyError" THEN <<"V:C14.number_rejected_for_single_variable_expression">> ELSE <<>>)]
 
 \* ---- state machine --------------------------------------------------------
 Init == blk \in 1..NBLK /\ i = 0
